@@ -11,19 +11,20 @@ Context {A D : Type}.
 Variable sem : code -> D -> A -> option A.
 Variable dsem : code -> D -> option D.
 Variable d0 : D.
+Variable c0 : Z.
 Variable parts : list (list (list A)).        (* the files of the recording *)
 
 Lemma reader_commute (e : expr) (E : arr A D) (it : item) (cols : option colsel) :
   valid_item (zlen (concat parts)) it ->
-  eval_eager sem dsem e (mkarr d0 (concat parts)) = Some E ->
-  reader_getitem sem dsem (getitem_rows parts) d0 (compile e) it cols =
+  eval_eager sem dsem e (mkarr d0 c0 (concat parts)) = Some E ->
+  reader_getitem sem dsem (getitem_rows parts) d0 c0 (compile e) it cols =
     match cols with
     | Some cs => if is_whole it then Some (GReader (compile (ECols e cs)))
                  else option_map GRows (then_index E it cols)
     | None => option_map GRows (then_index E it cols)
     end.
 Proof.
-  intros Hv He. apply (getitem_commute sem dsem (getitem_rows parts) d0 (concat parts)); [|exact He].
+  intros Hv He. apply (getitem_commute sem dsem (getitem_rows parts) d0 c0 (concat parts)); [|exact He].
   apply getitem_rows_np. exact Hv.
 Qed.
 
@@ -32,8 +33,8 @@ Definition valid_cmd (n : Z) (c : cmd) : Prop :=
 
 Lemma reader_tree_commute (cmds : list cmd) h os ros :
   Forall (valid_cmd (zlen (concat parts))) cmds ->
-  hrun sem dsem (getitem_rows parts) d0 h_append_op cmds heap0 = Some (h, os) ->
-  sruns sem dsem (mkarr d0 (concat parts)) cmds [EBase] = Some ros ->
+  hrun sem dsem (getitem_rows parts) d0 c0 h_append_op cmds heap0 = Some (h, os) ->
+  sruns sem dsem (mkarr d0 c0 (concat parts)) cmds [EBase] = Some ros ->
   Forall2 (@agrees A D) os ros.
 Proof.
   intros Hv. apply hrun_tree_commute. intros r it cols Hin.
